@@ -112,6 +112,27 @@ REGEX_SPECS = [
     ("cleanup_unsubscribe_delta_abs", "reflector/StorageReflectSession.cpp", r"SubscribeRefCallbackArgs srcArgs\(-(\d+)\);\s*//\s*remove all of our subscriptions", "int"),
     ("max_batch_nest_count", "reflector/StorageReflectSession.cpp", r"MAX_BATCH_NEST_COUNT\s*=\s*(\d+)\s*;", "int"),
     ("max_node_changed_aux_nest_count", "reflector/StorageReflectSession.cpp", r"MAX_NODE_CHANGED_AUX_NEST_COUNT\s*=\s*(\d+)\s*;", "int"),
+    # --- C06: which of the three reflector repairs proposed with C04/C05 (F12, F14, F15) the sources at hand still lack
+    #     (kind "flag": 1 iff the as-found text is present; the extracted model follows the code as it is)
+    ("c06_guard_as_found", "reflector/StorageReflectSession.cpp",
+     r"\(GetEntries\(\)\.GetNumItems\(\) == 1\)&&\(\(data\.IsUseFiltersOkay\(\) == false\)", "flag"),
+    ("c06_cqf_as_found", "reflector/StorageReflectSession.cpp",
+     r"if \(oldMatches != newMatches\) NodeChangedAux\(node, constMsg2", "flag"),
+    ("c06_push_as_found", "reflector/StorageReflectSession.cpp",
+     r"if \(updateDefaultMessageRoute\) UpdateDefaultMessageRoute\(\);\s*if \(getMsg\.HasName\(PR_NAME_KEYS\)\) DoGetData\(getMsg\);", "flag"),
+    # --- C05: which of the repairs the routing theorems assume (F12 guard, F19 once-per-session, F20 default route) the
+    #     sources at hand still lack (kind "flag": 1 iff the as-found text is present; the extracted model follows the
+    #     code as it is, Properties_C05.v requires all three to be 0), and the depth PassMessageCallbackAux returns
+    ("c05_guard_as_found", "reflector/StorageReflectSession.cpp",
+     r"\(GetEntries\(\)\.GetNumItems\(\) == 1\)&&\(\(data\.IsUseFiltersOkay\(\) == false\)", "flag"),
+    ("c05_once_as_found", "reflector/StorageReflectSession.cpp",
+     r"if \(\(next\)&&\(\(next != this\)\|\|\(includeSelfOkay\)\)\) next->MessageReceivedFromSession\(\*this, msgRef, &node\);", "flag"),
+    ("c05_route_as_found", "reflector/StorageReflectSession.cpp",
+     r"msg\.MoveName\(fn, _defaultMessageRouteMessage\)", "flag"),
+    ("c05_pass_returns_session_depth", "reflector/StorageReflectSession.cpp",
+     r"PassMessageCallbackAux\(DataNode & node[^{]*\{(?:[^}]|\}(?!\s*\n\s*int\b))*?return NODE_DEPTH_SESSIONNAME;\s*// This causes the traversal to immediately skip to the next session", "flag"),
+    ("c05_default_flags_gw_and_nb", "reflector/DumbReflectSession.cpp",
+     r"_defaultRoutingFlags\(MUSCLE_ROUTING_FLAG_GATEWAY_TO_NEIGHBORS,\s*MUSCLE_ROUTING_FLAG_NEIGHBORS_TO_GATEWAY\)", "flag"),
     # --- packet tunnels (C12): constants inside iogateway/PacketTunnelIOGateway.cpp / MiniPacketTunnelIOGateway.cpp
     ("tunnel_fragment_header_words", "iogateway/PacketTunnelIOGateway.cpp", r"FRAGMENT_HEADER_SIZE\s*=\s*(\d+)\s*\*\s*\(sizeof\(uint32\)\)\s*;", "int"),
     ("tunnel_max_receive_states", "iogateway/PacketTunnelIOGateway.cpp", r"MAX_NUM_RECEIVE_STATES\s*=\s*(\d+)\s*;", "int"),
@@ -176,9 +197,18 @@ def _read(repo, rel):
 
 
 def run_probe(repo):
+    import tempfile, shutil
     src = os.path.join(HERE, "consts_probe.cpp")
-    bdir = os.path.join(VERIF, "build", "gen")
-    os.makedirs(bdir, exist_ok=True)
+    base = os.path.join(VERIF, "build", "gen")
+    os.makedirs(base, exist_ok=True)
+    bdir = tempfile.mkdtemp(prefix="probe-", dir=base)   # private: several checks may translate at once
+    try:
+        return _run_probe(repo, src, bdir)
+    finally:
+        shutil.rmtree(bdir, ignore_errors=True)
+
+
+def _run_probe(repo, src, bdir):
     exe = os.path.join(bdir, "consts_probe")
     cmd = ["g++", "-std=gnu++11", "-O0", "-w", "-DMUSCLE_ENABLE_ZLIB_ENCODING", "-DMUSCLE_NO_EXCEPTIONS",
            "-I" + repo, src, "-o", exe]
